@@ -62,6 +62,15 @@ def gen_cases(tier):
                     for dump in (False, True):
                         for si in (range(len(SETTINGS)) if (name == "a.sql" and enc in ("utf-8", "utf-16")) else (0, 1)):
                             cases.append({"kind": "api", "text": tk, "enc": enc, "name": name, "target": ts, "dump": dump, "settings": si})
+    # dialect-specific file extensions with NO explicit output_mode (the mode is an argument, never inferred from the file name),
+    # and a source directory whose own name contains dots
+    for tk in ("t3", "t1"):
+        for name in ("e.hql", "f.bql", "d.ddl", "a.sql"):
+            for ts in ("missing", "empty"):
+                for dump in (False, True):
+                    for si in (2, 5):
+                        cases.append({"kind": "api", "text": tk, "enc": "utf-8", "name": name, "target": ts, "dump": dump, "settings": si})
+                    cases.append({"kind": "api", "text": tk, "enc": "utf-8", "name": name, "target": ts, "dump": dump, "settings": 0, "dotdir": True})
     for kind in ("file", "dir", "missing"):
         for n in range(0, 5):
             for f in itertools.combinations(FLAGS, n):
@@ -107,7 +116,7 @@ def api_case(case):
         work = os.path.join(d, "work")
         os.makedirs(work)
         os.chdir(work)
-        src = os.path.join(d, "in")
+        src = os.path.join(d, "rel-1.4.d" if case.get("dotdir") else "in")
         os.makedirs(src)
         fp = os.path.join(src, name)
         with open(fp, "w", encoding=enc, newline="") as f:
@@ -177,7 +186,7 @@ def cli_case(case):
     try:
         work = os.path.join(d, "work")
         os.makedirs(work)
-        src = os.path.join(d, "in")
+        src = os.path.join(d, "in.v1.d")  # (a directory name with dots: only the FILE name decides the dump name)
         os.makedirs(src)
         for n in NAMES:
             open(os.path.join(src, n), "w").write(table_for(n))
